@@ -6,8 +6,47 @@ from lib.vals import *
 
 THEOREMS = ["C13_writer_is_sha256", "C13_constants_are_fips", "C13_nist_vectors", "C13_hash256_is_sha256_of_encoding",
             "C13_frame_bytes_distinct", "C13_property_order", "C13_mapping_order", "C13_format_order",
-            "C13_metadata_invisible", "C13_hash32_property_order", "C13_refuted_alias"]
-IMPORTS = "From Beff Require Import Model.Cases."
+            "C13_metadata_invisible", "C13_hash32_property_order", "C13_refuted_alias",
+            "C13_equal_streams_accept_the_same_values", "C13_disagreeing_validators_are_hashed_from_different_bytes",
+            "C13_framing_is_a_prefix_code", "C13_injectivity_nonvacuous"]
+IMPORTS = "From Beff Require Import Model.Cases Proofs.C13Inj."
+
+
+# ---------------------------------------------------------------- the fragment of C13_equal_streams_accept_the_same_values
+def refs_in(r):
+    out = []
+    def walk(x):
+        if isinstance(x, (tuple, list)):
+            if len(x) == 2 and x[0] == "Ref" and isinstance(x[1], str):
+                out.append(x[1])
+            else:
+                for y in x: walk(y)
+    walk(r)
+    return out
+
+
+def ranks_of(env):
+    """rank of every named type along the reference graph (0 = refers to nothing); None for a name on or above a cycle"""
+    table = dict(env)
+    rank, busy = {}, set()
+    def go(n):
+        if n in rank: return rank[n]
+        if n in busy or n not in table: return None
+        busy.add(n)
+        rs = [go(m) for m in refs_in(table[n])]
+        busy.discard(n)
+        rank[n] = None if any(x is None for x in rs) else (1 + max(rs) if rs else 0)
+        return rank[n]
+    for n, _ in env: go(n)
+    return rank
+
+
+def fragment_expr(env, rt):
+    rk = ranks_of(env)
+    top = [rk.get(n) for n in refs_in(rt)]
+    n = 0 if any(x is None for x in top) else (1 + max(top) if top else 1)
+    ranks = coq_list("(%s, %d%%nat)" % (coq_str(k), v if v is not None else 0) for k, v in sorted(rk.items()))
+    return "in_fragment %s %s %d%%nat %s" % (env_coq(env), ranks, n, rt_coq(rt))
 
 
 # ---------------------------------------------------------------- tree transformations (meaning-preserving)
@@ -254,8 +293,11 @@ def check(run):
             exprs.append("run_hash256 %s %s" % (env_coq(env), rt_coq(rt)))
             exprs.append("run_hash32 %s %s" % (env_coq(env), rt_coq(rt)))
             meta.append((ci, ii))
+    frag_exprs = [fragment_expr(c["env"], c["rt"]) for c in cases]
     js = common.run_driver(wjobs + jobs)
-    cq = common.run_coq_cases(IMPORTS, wex + exprs, tag="C13")
+    cq = common.run_coq_cases(IMPORTS, wex + exprs + frag_exprs, tag="C13")
+    frag = cq[len(wex) + len(exprs):]
+    cq = cq[:len(wex) + len(exprs)]
     nw = len(wjobs)
     for i in range(nw):
         a = js[i][0]
@@ -313,6 +355,9 @@ def check(run):
                 else:
                     fails.append(("hash32-changes-under:" + what, dict(desc, original_hash=o["hash"], variant_hash=v["hash"])))
     cov["evaluations"] = len(meta) + nw
+    cov["theorem_fragment"] = {"theorem": "C13_equal_streams_accept_the_same_values",
+                               "generated_trees": len(frag), "in_fragment (hfr, env_okb evaluated in Coq)": sum(1 for x in frag if x == "1"),
+                               "outside": "recursive named types (cycle ids), template-literal patterns, literals outside the byte alphabet of the model"}
     cov["distinct_nontrivial"] = len({res[k]["public"] for k in res})
     cov["rule"] = ("(1) random write sequences with lengths around block/padding boundaries; (2) random + forced validator trees, "
                    "each with meaning-preserving variants (property/mapping/format order, descriptions, renamed named types, alias "
